@@ -1750,3 +1750,27 @@ VARIANTS += [
  dict(name='p5-lookup-record-filled-on-branches-crossed', expect='flagged(lookup/decode-matches-media-type)',
       **p5(sub(P5_INLINE, '\tif sigManifestDesc.MediaType == ocispec.MediaTypeImageManifest {\n', '\tif sigManifestDesc.MediaType != ocispec.MediaTypeImageManifest {\n'), P5_TYPE_ONLY)),
 ]
+
+# the same decoder handing its four values back as separate results instead of a record
+P5_MULTI = r'''
+func parseManifest(mediaType string, manifestJSON []byte) (*ocispec.Descriptor, string, map[string]string, []ocispec.Descriptor, error) {
+	if mediaType == ocispec.MediaTypeImageManifest {
+		var image ocispec.Manifest
+		if err := json.Unmarshal(manifestJSON, &image); err != nil {
+			return nil, "", nil, nil, err
+		}
+		return image.Subject, image.Config.MediaType, image.Annotations, image.Layers, nil
+	}
+	var artifact artifactspec.Artifact
+	if err := json.Unmarshal(manifestJSON, &artifact); err != nil {
+		return nil, "", nil, nil, err
+	}
+	return artifact.Subject, artifact.ArtifactType, artifact.Annotations, artifact.Blobs, nil
+}
+'''
+P5_CALL_MULTI = '\t_, _, _, signatureBlobs, err := parseManifest(sigManifestDesc.MediaType, manifestJSON)\n\tif err != nil {\n\t\treturn ocispec.Descriptor{}, err\n\t}\n'
+VARIANTS += [
+ dict(name='p5-lookup-decoder-with-several-results', expect='silent', **p5(P5_CALL_MULTI, P5_MULTI)),
+ dict(name='p5-lookup-decoder-with-several-results-wrong-position', expect='flagged(lookup/exactly-one-blob)',
+      **p5(P5_CALL_MULTI, sub(P5_MULTI, 'image.Annotations, image.Layers, nil', 'image.Annotations, []ocispec.Descriptor{image.Config}, nil'))),
+]
